@@ -26,6 +26,7 @@ type State struct {
 	Tref   [][]string `json:"tref"`
 	Cexc   []string   `json:"cexc"`
 	Merged []string   `json:"merged"`
+	Conf   []string   `json:"conf"` // before: the configuration keys present (git-bug.identity, git-bug.bridge.x.target, user.name)
 }
 type Vec struct {
 	Via     string   `json:"via"`
@@ -111,7 +112,9 @@ func one(v Vec, kind string, cli bool) string {
 		}
 	}
 	// unrelated things that must survive
-	hx.Must(repo.LocalConfig().StoreString("git-bug.bridge.x.target", "gitlab"))
+	if v.Via != "wipe" || has(v.Before.Conf, "git-bug.bridge.x.target") {
+		hx.Must(repo.LocalConfig().StoreString("git-bug.bridge.x.target", "gitlab"))
+	}
 	hx.Must(repo.UpdateRef("refs/heads/unrelated", ents["o2"].head))
 	foreignBefore := foreign(repo, ents, ns)
 
@@ -265,14 +268,16 @@ func one(v Vec, kind string, cli bool) string {
 		if err != nil {
 			return "cache open: " + err.Error()
 		}
-		ic, err := c.Identities().Resolve(author.Id())
-		hx.Must(err)
-		hx.Must(c.SetUserIdentity(ic))
+		if has(v.Before.Conf, "git-bug.identity") {
+			ic, err := c.Identities().Resolve(author.Id())
+			hx.Must(err)
+			hx.Must(c.SetUserIdentity(ic))
+		}
 		_ = c.Close()
 		cmd := exec.Command(gitbug, "wipe")
 		cmd.Dir = dir
 		if out, err := cmd.CombinedOutput(); err != nil {
-			return fmt.Sprintf("git-bug wipe failed: %v: %s", err, out)
+			return fmt.Sprintf("git-bug wipe failed (git-bug configuration before: %v): %v: %s", v.Before.Conf, err, out)
 		}
 		refs, _ := repo.ListRefs("refs/")
 		for _, r := range refs {
@@ -339,6 +344,10 @@ func cacheView(c *cache.RepoCache, kind string, ents map[string]*ent, want []str
 			_, err := c.Bugs().ResolveExcerpt(e.id)
 			found = err == nil
 			_, err2 := c.Bugs().ResolvePrefix(e.id.String())
+			// by its full id too: this path goes through the loaded instances, not through the excerpts
+			if _, errId := c.Bugs().Resolve(e.id); (errId == nil) != found {
+				return fmt.Sprintf("%s: the cache disagrees with itself about %s (excerpt %v, resolve by id %v)", when, name, found, errId == nil)
+			}
 			q, _ := query.Parse("title:zebra" + name)
 			res, _ := c.Bugs().Query(q)
 			q2, _ := query.Parse("zebra" + name)
@@ -350,6 +359,9 @@ func cacheView(c *cache.RepoCache, kind string, ents map[string]*ent, want []str
 			_, err := c.Identities().ResolveExcerpt(e.id)
 			found = err == nil
 			_, err2 := c.Identities().ResolvePrefix(e.id.String())
+			if _, errId := c.Identities().Resolve(e.id); (errId == nil) != found {
+				return fmt.Sprintf("%s: the cache disagrees with itself about %s (excerpt %v, resolve by id %v)", when, name, found, errId == nil)
+			}
 			if (err2 == nil) != found {
 				return fmt.Sprintf("%s: the cache disagrees with itself about %s", when, name)
 			}
